@@ -44,7 +44,8 @@ def gen_plan(rng, tier, run):
     # vary payload sizes of sections that are hex-dumped
     for p in pels:
         for s in p["recipe"]["sections"]:
-            if s["kind"] in ("ud", "ed", "raw") and "expect_json" not in s and "expect_text" not in s and rng.random() < 0.5:
+            if s["kind"] in ("ud", "ed", "raw") and "expect_json" not in s and "expect_text" not in s and not s.get("badjson") \
+                    and rng.random() < 0.5:
                 c = rng.random()
                 if c < 0.5:
                     n = rng.choice([1, 2, 15, 16, 17, 31, 32, 33, 255, 256])
@@ -140,6 +141,12 @@ def execute(plan):
                 if not isinstance(sec, dict):
                     vio.append(V("section-malformed", ctx + ": %r" % (sec,)))
                     continue
+                if state == "builtin-badjson":
+                    # JSON sub-type whose text is not JSON: the text (not the raw payload) is hex-dumped; the section
+                    # must still be there with a dump of that text
+                    if payload not in plug.recover(sec.get("Data"), parse):
+                        vio.append(V("payload-not-recoverable", ctx + ": invalid JSON text is neither shown nor dumped: %s" % _short(sec)))
+                    continue
                 if state == "builtin-json":
                     want = s["expect_json"]
                     if isinstance(want, dict):
@@ -203,7 +210,7 @@ def shrink_candidates(plan, violation):
     P = lambda: json.loads(json.dumps(plan))
     for i, p in enumerate(plan["pels"]):
         for j, s in enumerate(p["recipe"]["sections"]):
-            if s["kind"] in ("ud", "ed", "raw") and len(s["payload"]) > 64 and "expect_json" not in s and "expect_text" not in s:
+            if s["kind"] in ("ud", "ed", "raw") and len(s["payload"]) > 64 and "expect_json" not in s and "expect_text" not in s and not s.get("badjson"):
                 c = P()
                 c["pels"][i]["recipe"]["sections"][j]["payload"] = s["payload"][:len(s["payload"]) // 4 * 2]
                 yield c
